@@ -27,6 +27,7 @@ QUICK_RUNS = 2600
 QUICK_BUDGET_S = 50.0
 THOROUGH_RUNS = 10 ** 9
 BATCH = 25
+SHRINK_IN_FRESH_FORK = False  # not needed: run_one itself executes every history in its own fresh fork
 RULE = ("one run = one seeded history of 5..60 public API calls (parse_schema into private/shared dictionaries, "
         "schemaless and container write/read with reader schemas, block_reader, Writer handles kept across calls, "
         "validate/validate_many, canonical form, fingerprint, JSON write/read, generate_one/many with explicit "
@@ -189,6 +190,12 @@ class History:
                   ["UAB_1", "UAB_2"], ["Dec_30", "Dec_3", "Rec_dec"], list(self.keys)]
         self.focus = ch.pick(groups)
         self.focus_pct = ch.pick([0, 60, 90])
+        # swarm: every history has its own operation mix (some kinds switched off, some tripled)
+        base_w = [6, 5, 4, 3, 3, 2, 3, 2, 2, 2, 2, 4, 1, 1, 1, 1]
+        self.weights = [max(1 if i < 2 else 0, w * ch.pick([0, 1, 1, 3])) for i, w in enumerate(base_w)]
+        if self.focus == ["UAB_1", "UAB_2"]:
+            self.weights[11] = max(self.weights[11], 12)   # Writer handles: where a shared default options dict would show
+            self.weights[4] = max(self.weights[4], 6)
 
     def pick_key(self):
         if self.ch.chance(self.focus_pct):
@@ -237,7 +244,7 @@ class History:
 
     def next_desc(self):
         ch = self.ch
-        k = ch.weighted([6, 5, 4, 3, 3, 2, 3, 2, 2, 2, 2, 4, 1, 1, 1, 1])
+        k = ch.weighted(self.weights)
         key = self.pick_key()
         if k == 0:
             into = ch.pick(self.dicts) if ch.chance(50) else None
@@ -447,7 +454,7 @@ def slice_of(descs, k, parsed_into):
 
 def run_one(ch, ctx):
     srv = fresh.server()
-    F = common.fa()
+    F = None   # this process never calls fastavro for C17: history and oracle both run in fresh forks
     H = History(ch, ctx)
     try:
         _run(ch, ctx, srv, F, H)
@@ -457,32 +464,45 @@ def run_one(ch, ctx):
             shutil.rmtree(H.tmpdir, ignore_errors=True)
 
 
+def _full_history_job(base, descs):
+    """(in a fresh fork of the pristine server) the long-lived *history process*: executes
+    every call in order; returns all observations and the first argument modification."""
+    import copy as _copy
+    F = common.fa()
+    E = _copy.deepcopy(base)
+    obs = []
+    tampered = None
+    for i, d in enumerate(descs):
+        watch = [n for n in (d.get("schema"), d.get("datum"), d.get("records"), d.get("reader")) if isinstance(n, str) and n in E]
+        before = {n: snapshot(E[n]) for n in watch}
+        obs.append(ops.apply(F, d, E))
+        for n in watch:
+            if snapshot(E[n]) != before[n] and tampered is None:
+                tampered = (i, n, jsonable(E[n]))
+    return obs, tampered
+
+
 def _run(ch, ctx, srv, F, H):
     n_calls = 5 + ch.draw(56 if ctx.tier == "thorough" else 30)
-    descs = []
-    obs = []
-    parsed_into = {}
+    descs = [H.next_desc() for _ in range(n_calls)]
+    parsed_into = {d["out"]: d["into"] for d in descs if d["op"] == "parse" and d.get("out") and d.get("into")}
+    # The history runs in its OWN fresh process (one fork per run), never in this worker:
+    # state leaked by earlier runs of the worker would make a violation irreproducible
+    # from this run's choices alone.
+    obs, tampered3 = srv.call("props.c17", "_full_history_job", (H.base, descs))
     tampered = None
-    for i in range(n_calls):
-        d = H.next_desc()
-        descs.append(d)
-        if d["op"] == "parse" and d.get("out") and d.get("into"):
-            parsed_into[d["out"]] = d["into"]
-        # inputs-intact: snapshot every schema / datum argument
-        watch = [n for n in (d.get("schema"), d.get("datum"), d.get("records"), d.get("reader")) if isinstance(n, str) and n in H.E]
-        before = {n: snapshot(H.E[n]) for n in watch}
-        o = ops.apply(F, d, H.E)
-        obs.append(o)
-        for n in watch:
-            if snapshot(H.E[n]) != before[n] and tampered is None:
-                tampered = (i, n)
+    now_value = None
+    if tampered3 is not None:
+        tampered = (tampered3[0], tampered3[1])
+        now_value = tampered3[2]
+    for i, o in enumerate(obs):
         ctx.ev("call", i, json.dumps(o, sort_keys=True, default=str)[:300])
     desc = {"history": [ops.describe(x) for x in descs]}
     if tampered is not None:
         i, n = tampered
         raise Violation("inputs-intact", "argument-modified",
                         detail={"call_index": i, "call": ops.describe(descs[i]), "argument": n,
-                                "now": jsonable(H.E[n]), "was": jsonable(H.base.get(n))},
+                                "now": now_value, "was": jsonable(H.base.get(n))},
                         scenario={"history": [ops.describe(x) for x in descs[:i + 1]]})
     # which calls to check: all in quick histories, a seeded sample of <= 24 in long ones
     idx = list(range(n_calls))
@@ -522,3 +542,94 @@ def _run(ch, ctx, srv, F, H):
     ctx.stat("calls", n_calls)
     ctx.stat("failing_calls", len(failing))
     ctx.sample = {"history": [ops.describe(x) for x in descs[:12]], "n_calls": n_calls, "checked": len(idx)}
+
+
+# ------------------------------------------------------------------ history minimisation
+def _history_job(base, descs):
+    """(in a fresh fork) run the whole history; report the last call's observation and
+    whether the last call modified one of its schema/datum arguments."""
+    import copy as _copy
+    F = common.fa()
+    E = _copy.deepcopy(base)
+    obs = None
+    tampered = None
+    for i, d in enumerate(descs):
+        watch = [n for n in (d.get("schema"), d.get("datum"), d.get("records"), d.get("reader")) if isinstance(n, str) and n in E]
+        before = {n: snapshot(E[n]) for n in watch}
+        obs = ops.apply(F, d, E)
+        if i == len(descs) - 1:
+            for n in watch:
+                if snapshot(E[n]) != before[n]:
+                    tampered = n
+    return obs, tampered
+
+
+def _still_violates(srv, base, descs):
+    """Does the last call of descs still differ from its fresh-interpreter evaluation (or
+    modify an argument) when the history is descs[:-1]?"""
+    parsed_into = {d["out"]: d["into"] for d in descs if d["op"] == "parse" and d.get("out") and d.get("into")}
+    k = len(descs) - 1
+    try:
+        obs, tampered = srv.call("props.c17", "_history_job", (base, descs))
+        sl = slice_of(descs, k, parsed_into)
+        fresh_obs = srv.evaluate(base, [descs[i] for i in sl] + [descs[k]])[-1]
+    except RuntimeError:
+        return None
+    if tampered:
+        return {"kind": "argument-modified", "argument": tampered, "obs": obs}
+    if obs != fresh_obs:
+        return {"kind": "differs-from-fresh-interpreter", "after_history": obs, "fresh": fresh_obs, "slice": sl}
+    return None
+
+
+def refine(recorded):
+    """Specialised history minimisation, run once on the minimised choice list: delete calls
+    from the history (delta debugging over call descriptors, each candidate executed in a
+    fresh fork) while the LAST call still differs from its fresh evaluation or still
+    modifies an argument."""
+    from choices import Choices
+    import runner
+    srv = fresh.server()
+    ch = Choices(recorded=recorded)
+    ctx = runner.RunCtx("quick")
+    H = History(ch, ctx)
+    try:
+        n_calls = 5 + ch.draw(30)
+        descs = [H.next_desc() for _ in range(n_calls)]
+        # find the first violating call
+        target = None
+        for k in range(len(descs)):
+            if _still_violates(srv, H.base, descs[:k + 1]):
+                target = k
+                break
+        if target is None:
+            return {"history_minimisation": "not reproduced call by call"}
+        cur = descs[:target + 1]
+        tries = 0
+        chunk = max(1, (len(cur) - 1) // 2)
+        while chunk >= 1 and tries < 400:
+            i = 0
+            progressed = False
+            while i < len(cur) - 1 and tries < 400:
+                cand = cur[:i] + cur[i + chunk:-1] + [cur[-1]] if i + chunk < len(cur) - 1 else cur[:i] + [cur[-1]]
+                if len(cand) < len(cur):
+                    tries += 1
+                    if _still_violates(srv, H.base, cand):
+                        cur = cand
+                        progressed = True
+                        continue
+                i += max(1, chunk // 2) if chunk > 1 else 1
+            if not progressed or chunk == 1:
+                chunk //= 2
+        final = _still_violates(srv, H.base, cur)
+        used = set()
+        for d in cur:
+            used.update(uses_of(d))
+        return {"minimised_history": {
+            "calls": [ops.describe(d) for d in cur], "original_calls": target + 1, "tries": tries,
+            "verdict": jsonable(final),
+            "objects": {n: jsonable(H.base[n]) for n in sorted(used) if n in H.base}}}
+    finally:
+        if H.tmpdir:
+            import shutil
+            shutil.rmtree(H.tmpdir, ignore_errors=True)
